@@ -2,6 +2,7 @@ package main
 
 import (
 	"fmt"
+	"os"
 	"go/token"
 	"go/types"
 	"sort"
@@ -1072,46 +1073,49 @@ func runC15Topdim(c *Ctx) {
 		}
 		models++
 		m := &Model{Num: map[string]float64{}, Bool: map[string]bool{}, Missing: map[string]bool{}}
-		it := &k4interp{p: c.P, m: m, mem: map[string]k4val{}, inline: func(g *ssa.Function) bool { return FuncName(g) == "geom.maxInt" }}
+		// the collection is modelled as 3 leaves; its traversals (walk, or recursive
+		// helpers written instead of it) are interpreted, everything about a leaf is
+		// answered from the model
+		it := &k4interp{p: c.P, m: m, mem: map[string]k4val{}, inline: func(g *ssa.Function) bool {
+			n := FuncName(g)
+			return n == "geom.maxInt" || n == "geom.(GeometryCollection).walk" || (g.Parent() != nil && rootFunc(g) == f)
+		}}
+		it.mem["$0.geoms"] = k4val{kind: 8, s: "LEAF", ln: nl, cp: nl}
 		considered := map[int]bool{}
 		var hookErr error
+		leafOf := func(s string) int {
+			for i := 0; i < nl; i++ {
+				if strings.Contains(s, fmt.Sprintf("LEAF[%d]", i)) {
+					return i
+				}
+			}
+			return -1
+		}
 		it.onOpaque = func(name string, args []k4val) {
-			switch {
-			case strings.HasSuffix(name, ").walk") && len(args) == 2 && args[1].kind == 7:
-				fnv, _ := args[1].v.(*ssa.Function)
-				if fnv == nil {
-					return
-				}
-				var fvs []k4val
-				if args[1].s != "" {
-					for _, k := range strings.Split(args[1].s, "\x00") {
-						fvs = append(fvs, k4val{kind: 3, s: k})
-					}
-				}
-				for i := 0; i < nl; i++ {
-					if _, err := it.call(fnv, []k4val{{kind: 3, s: fmt.Sprintf("LEAF%d", i)}}, fvs); err != nil && hookErr == nil {
-						hookErr = err
-					}
-				}
-			case strings.HasSuffix(name, ").consider"):
+			if os.Getenv("K4DBG") != "" {
+				fmt.Fprintln(os.Stderr, "OPAQUE", name, args)
+			}
+			if strings.HasSuffix(name, ").consider") {
 				for _, a := range args {
-					for i := 0; i < nl; i++ {
-						if strings.Contains(a.String(), fmt.Sprintf("LEAF%d", i)) {
-							considered[i] = true
-						}
+					if i := leafOf(a.String()); i >= 0 {
+						considered[i] = true
 					}
 				}
 			}
 		}
 		it.answer = func(key string, isBool bool) (k4val, bool) {
-			for i := 0; i < nl; i++ {
-				lf := fmt.Sprintf("(LEAF%d)", i)
-				if isBool && key == "geom.(Geometry).IsEmpty"+lf {
-					return k4val{kind: 1, b: empty[i]}, true
-				}
-				if !isBool && key == "geom.(Geometry).Dimension"+lf {
-					return k4val{kind: 2, f: float64(dim[i])}, true
-				}
+			i := leafOf(key)
+			if i < 0 {
+				return k4val{}, false
+			}
+			lf := fmt.Sprintf("(LEAF[%d])", i)
+			switch {
+			case isBool && key == "geom.(Geometry).IsGeometryCollection"+lf:
+				return k4val{kind: 1, b: false}, true
+			case isBool && key == "geom.(Geometry).IsEmpty"+lf:
+				return k4val{kind: 1, b: empty[i]}, true
+			case !isBool && key == "geom.(Geometry).Dimension"+lf:
+				return k4val{kind: 2, f: float64(dim[i])}, true
 			}
 			return k4val{}, false
 		}
